@@ -429,12 +429,25 @@ func classifyStateDiff(d []string) string {
 				fields["account-missing"] = true
 				continue
 			}
-			fa, fb := strings.Fields(e[0]), strings.Fields(e[1])
-			for k := 0; k < len(fa) && k < len(fb); k++ {
-				if fa[k] != fb[k] {
-					fields[strings.SplitN(fa[k], "=", 2)[0]] = true
-					break
+			ha, pa, _ := strings.Cut(e[0], " privs=")
+			hb, pb, _ := strings.Cut(e[1], " privs=")
+			if ha != hb {
+				// fields before the privilege set: name of the first one that differs
+				fa, fb := strings.SplitN(ha, " ", 6), strings.SplitN(hb, " ", 6) // user name locked plugin auth rest
+				named := false
+				for k := 2; k < len(fa) && k < len(fb) && k < 5; k++ {
+					if fa[k] != fb[k] {
+						fields[strings.SplitN(fa[k], "=", 2)[0]] = true
+						named = true
+						break
+					}
 				}
+				if !named {
+					fields["identity-tls-or-attributes"] = true
+				}
+			}
+			if pa != pb {
+				fields["privileges"] = true
 			}
 		}
 		var fs []string
